@@ -49,7 +49,9 @@ MTU = 23
 def failed_read(perms, enc, auth):
     f = []
     if not perms & R:
-        f.append('READABLE')
+        # in-tree profiles declare e.g. READ_REQUIRES_ENCRYPTION alone and expect reads to work, so the
+        # two ways of lacking READABLE are kept apart in the signatures
+        f.append('READABLE_flag' if perms & (R_ENC | R_AUTHN | R_AUTHZ) else 'any_read_permission')
     if perms & R_AUTHZ:
         f.append('authorization')
     if perms & R_AUTHN and not auth:
@@ -62,7 +64,7 @@ def failed_read(perms, enc, auth):
 def failed_write(perms, enc, auth):
     f = []
     if not perms & W:
-        f.append('WRITEABLE')
+        f.append('WRITEABLE_flag' if perms & (W_ENC | W_AUTHN | W_AUTHZ) else 'any_write_permission')
     if perms & W_AUTHZ:
         f.append('authorization')
     if perms & W_AUTHN and not auth:
@@ -73,8 +75,10 @@ def failed_write(perms, enc, auth):
 
 
 CODES = {
-    'READABLE': {A.ERR_READ_NOT_PERMITTED},
-    'WRITEABLE': {A.ERR_WRITE_NOT_PERMITTED},
+    'READABLE_flag': {A.ERR_READ_NOT_PERMITTED},
+    'any_read_permission': {A.ERR_READ_NOT_PERMITTED},
+    'WRITEABLE_flag': {A.ERR_WRITE_NOT_PERMITTED},
+    'any_write_permission': {A.ERR_WRITE_NOT_PERMITTED},
     'authorization': {A.ERR_INSUFF_AUTHORIZATION},
     'authentication': {A.ERR_INSUFF_AUTHENTICATION},
     # without a key to encrypt with, Insufficient Authentication is the spec'd answer too
